@@ -1274,7 +1274,9 @@ func (e *Engine) typeMethod(fr *frame, t types.Type, name string, args []value) 
 	case "Implements":
 		u := args[0].(iface)
 		if u.t == nil {
-			reflectPanic("reflect: nil type passed to Type.Implements")
+			// (anko never calls Implements; std packages do, with package-level type
+			// variables the engine does not initialise: outside the model)
+			panic(unsupported{"Type.Implements with a nil type (uninitialised std package variable)"})
 		}
 		it, ok := u.v.(rtype).t.Underlying().(*types.Interface)
 		if !ok {
